@@ -114,8 +114,91 @@ fn tear(len_hint: usize) -> usize {
     }
 }
 
+/// Library level: the same two families on a simulated output file (`CloneOutput<SimFile>`):
+/// the k-th write call dies after a drawn prefix / fails, then `reorder_in_place` + clone on
+/// what is left.
+fn run_l1(ctx: &mut Ctx, f: &Fam) {
+    use crate::simio::{FileOp, SimFile, SimSource, WriteFault};
+    let src = f.made.source.clone();
+    let prior = f.prior.clone().unwrap_or_default();
+    let archive = f.made.archive.clone();
+    let seeds = || -> Vec<SimSource> { f.seeds.iter().map(|(_, d)| SimSource::drawn(d.clone())).collect() };
+    let clone_on = |file: &SimFile, reorder: bool, with_seeds: bool| -> Outcome {
+        scen::draw_schedule();
+        let r = scen::run_lib_clone_local(archive.clone(), file.clone(), if with_seeds { seeds() } else { Vec::new() }, reorder);
+        let o = scen::lib_outcome(&r);
+        simkit::with(|s| s.crashed = false);
+        file.with(|g| g.crashed = false);
+        o
+    };
+    // uninterrupted run: W
+    let base = SimFile::new(prior.clone());
+    base.with(|g| g.fixed_size = f.blockdev);
+    if !clone_on(&base, f.seed_output, true).is_success() {
+        simkit::count("inconclusive-baseline-failed");
+        return;
+    }
+    let w = base.ops().iter().filter(|o| matches!(o, FileOp::Write { .. })).count() as u64;
+    let avg = f.made.spec.cfg.expected_avg();
+    let error_family = gen::chance(1, 3);
+    let ks: Vec<u64> = if w <= 24 { (0..w).collect() } else { (0..24).map(|_| gen::draw(w as u32) as u64).collect() };
+    let mut fired = 0u64;
+    for &k in &ks {
+        let file = SimFile::new(prior.clone());
+        file.with(|g| g.fixed_size = f.blockdev);
+        let (fault, what) = if error_family {
+            let kind = *gen::t(|t| t.pick(&[std::io::ErrorKind::StorageFull, std::io::ErrorKind::Other, std::io::ErrorKind::BrokenPipe]));
+            (WriteFault::Error(kind), format!("write call {} fails with {:?}", k, kind))
+        } else {
+            let p = tear(avg);
+            (WriteFault::Crash(p), format!("process death at write call {} after {} bytes", k, if p == usize::MAX { "all".to_string() } else { p.to_string() }))
+        };
+        file.with(|g| g.write_fault = Some((k, fault)));
+        let o1 = clone_on(&file, f.seed_output, true);
+        let hit = file.with(|g| g.write_fault.is_none());
+        let desc = json!({"level": "lib", "scenario": f.desc, "writes_uninterrupted": w, "fault": what, "outcome": o1.short()});
+        if matches!(o1, Outcome::Panic(_) | Outcome::StepBudget | Outcome::Deadlock) {
+            ctx.fail(&format!("l1-faulted-outcome:{}", o1.class()), format!("library clone with a failing write ended with {}; {}", o1.short(), desc));
+            return;
+        }
+        if hit {
+            fired += 1;
+            if error_family && o1.is_success() {
+                ctx.fail("l1-failed-write-reported-success", format!("a write to the output failed, yet the library clone returned Ok; {}", desc));
+                return;
+            }
+        }
+        file.with(|g| g.write_fault = None);
+        // re-run in place on what is left
+        let o2 = clone_on(&file, true, gen::chance(1, 2));
+        if !o2.is_success() {
+            ctx.fail(&format!("l1-rerun-failed:{}", o2.class()), format!("the fault-free library re-run in place ended with {}; {}", o2.short(), desc));
+            return;
+        }
+        let out = file.contents();
+        if out.len() < src.len() || out[..src.len()] != src[..] {
+            ctx.fail("l1-rerun-output-differs", format!("after the fault-free re-run in place the output differs from the source at byte {:?}; {}", gen::first_diff(&out[..out.len().min(src.len())], &src), desc));
+            return;
+        }
+    }
+    simkit::with(|s| s.count_n("crash-points", ks.len() as u64));
+    if ctx.want_sample {
+        ctx.verdict.sample = Some(json!({"level": "lib", "scenario": f.desc, "writes_uninterrupted": w, "crash_points": ks, "family": if error_family { "write-error" } else { "crash" }}));
+    }
+    ctx.verdict.nontrivial = fired > 0 && w >= 3;
+    ctx.verdict.shape = w ^ ((ks.len() as u64) << 24) ^ ((error_family as u64) << 40) ^ (1 << 50);
+}
+
 pub fn run(ctx: &mut Ctx) {
     let Some(mut f) = clonefam::generate(ctx, Which::C06) else { return };
+    if gen::chance(1, 4) && !f.http {
+        f.level2 = false;
+        f.stdin_at = None;
+        if f.made.spec.hash_len < 8 && clonefam::truncated_twins(&f.ra) {
+            return;
+        }
+        return run_l1(ctx, &f);
+    }
     f.level2 = true;
     f.stdin_at = None;
     let f = f;
